@@ -59,6 +59,11 @@ impl ScalarClaim {
     pub fn decode_to_str(&self) -> CredxResult<String> {
         let data = self.value.to_be_bytes();
         let len = data[0] as usize;
+        if len > 31 {
+            return Err(Error::InvalidClaimData(
+                "scalar claim can only store 31 bytes or less",
+            ));
+        }
         String::from_utf8(data[32 - len..].to_vec())
             .map_err(|_| Error::InvalidClaimData("scalar claim is not valid UTF-8"))
     }
@@ -82,6 +87,11 @@ impl ScalarClaim {
     pub fn decode_to_bytes(&self) -> CredxResult<Vec<u8>> {
         let data = self.value.to_be_bytes();
         let len = data[0] as usize;
+        if len > 31 {
+            return Err(Error::InvalidClaimData(
+                "scalar claim can only store 31 bytes or less",
+            ));
+        }
         Ok(data[32 - len..].to_vec())
     }
 }
